@@ -217,14 +217,37 @@ func ruleSyncMetaPaths(w *core.World, r *core.Report) {
 		r.Unresolved("syncMeta/locals", "locSp/outSp/synSp/sOffset not found")
 		return
 	}
+	var curP *core.Path // the path being judged: a copy of a start point handed to a helper is followed back
 	fieldLoad := func(a *ssa.Alloc, field string) func(ssa.Value) bool {
 		return func(v ssa.Value) bool {
-			ld, ok := core.Unwrap(v).(*ssa.UnOp)
+			v = core.Unwrap(v)
+			if fv, isF := v.(*ssa.Field); isF && curP != nil && core.FieldName(fv) == field {
+				// a field of a by-value copy of the whole variable
+				if ld, isLd := core.Unwrap(curP.Resolve(fv.X)).(*ssa.UnOp); isLd && ld.Op == token.MUL && ld.X == ssa.Value(a) {
+					return true
+				}
+			}
+			ld, ok := v.(*ssa.UnOp)
 			if !ok || ld.Op != token.MUL {
 				return false
 			}
 			fa, ok := ld.X.(*ssa.FieldAddr)
-			return ok && fa.X == ssa.Value(a) && core.FieldName(fa) == field
+			if !ok || core.FieldName(fa) != field {
+				return false
+			}
+			if fa.X == ssa.Value(a) {
+				return true
+			}
+			// a by-value parameter spilled to a local of the helper: the local holds a copy of the variable
+			if b, isA := fa.X.(*ssa.Alloc); isA && curP != nil {
+				sts := core.CellStores(b)
+				if len(sts) == 1 {
+					if src, isLd := core.Unwrap(curP.Resolve(sts[0].Val)).(*ssa.UnOp); isLd && src.Op == token.MUL && src.X == ssa.Value(a) {
+						return true
+					}
+				}
+			}
+			return false
 		}
 	}
 	type verdict struct {
@@ -244,6 +267,7 @@ func ruleSyncMetaPaths(w *core.World, r *core.Report) {
 		if !ok || len(ret.Results) != 5 || !pathNil(p, ret.Results[4]) {
 			return
 		}
+		curP = p
 		var ps core.Site
 		sites := pathSites(p)
 		for _, s := range sites {
@@ -262,7 +286,7 @@ func ruleSyncMetaPaths(w *core.World, r *core.Report) {
 		}
 		// ---- which start point was offered to the source
 		src := ""
-		if c, ok := core.Unwrap(ps.Args()[1]).(*ssa.Call); ok && strings.HasSuffix(core.ResolveCall(c).Name, "StartPoint).ToOffset") {
+		if c, ok := core.Unwrap(p.Resolve(ps.Args()[1])).(*ssa.Call); ok && strings.HasSuffix(core.ResolveCall(c).Name, "StartPoint).ToOffset") {
 			switch c.Call.Args[0] {
 			case ssa.Value(loc):
 				src = "cache"
@@ -429,7 +453,7 @@ func ruleSyncMetaPaths(w *core.World, r *core.Report) {
 			v["partial-definitions"].n++
 			if oo := last["out.Offset"]; oo != nil {
 				b, ok := oo.(*ssa.BinOp)
-				if !(ok && b.Op == token.SUB && isRdbLeft(b.X) && isRdbSize(b.Y) && validRdb && src == "cache") {
+				if !(ok && b.Op == token.SUB && isRdbLeft(p.Resolve(b.X)) && isRdbSize(p.Resolve(b.Y)) && validRdb && src == "cache") {
 					fail("partial-definitions", "on a granted continuation the reader start (the target's stored position) is redefined outside the cached-snapshot case", ret.Pos())
 				}
 				if size != announced && !isRdbSize(size) {
@@ -481,9 +505,9 @@ func ruleSyncMetaPaths(w *core.World, r *core.Report) {
 			if s.Common().IsInvoke() && s.Method == "SetRunId" {
 				t := core.TypeName(s.Common().Value.Type())
 				if strings.HasSuffix(t, "syncer.Channel") {
-					chID = s.Args()[0]
+					chID = p.Resolve(s.Args()[0])
 				} else if strings.HasSuffix(t, "syncer.Output") {
-					outID = s.Args()[1]
+					outID = p.Resolve(s.Args()[1])
 				}
 			}
 		}
@@ -678,24 +702,41 @@ func pathNil(p *core.Path, v ssa.Value) bool {
 // written under.
 func ruleCacheAdoption(w *core.World, r *core.Report) {
 	if f := fn(w, r, "(*pkg/store.Storer).VerifyRunId"); f != nil {
-		ok := false
+		ok := true
+		nSet := 0
 		var pos token.Pos = f.Pos()
-		for _, set := range core.SitesNamed(f, false, "(*pkg/store.Storer).SetRunId") {
-			pos = set.Pos()
-			for _, st := range core.SitesNamed(f, false, "os.Stat") {
-				// the path probed is <baseDir>/<id> and the id adopted is the same id
-				sameId := false
-				if j, isCall := core.Unwrap(st.Args()[0]).(*ssa.Call); isCall && core.ResolveCall(j).Name == "path/filepath.Join" {
-					if elems, okV := core.VariadicElems(j.Call.Args[0]); okV && len(elems) == 2 &&
-						core.IsFieldLoad(core.Unwrap(elems[0]), "Storer", "baseDir") && core.Unwrap(elems[1]) == core.Unwrap(set.Args()[0]) {
-						sameId = true
+		// decided on paths (the probe may live in a helper): every switch follows a successful probe of
+		// <baseDir>/<the same id>, with no other probe in between
+		// (one iteration of the loop over the ids at a time: what a branch decided about a value of an earlier
+		// iteration says nothing about the next)
+		okEnum := core.EnumPathsN(f.Blocks[0], 0, 200000, 1, func(p *core.Path) {
+			var lastStat *core.Site
+			sites := pathSites(p)
+			for k := range sites {
+				st := sites[k]
+				switch st.Name {
+				case "os.Stat":
+					lastStat = &sites[k]
+				case "(*pkg/store.Storer).SetRunId":
+					nSet++
+					good := false
+					if lastStat != nil {
+						if j, isCall := core.Unwrap(p.Resolve(lastStat.Args()[0])).(*ssa.Call); isCall && core.ResolveCall(j).Name == "path/filepath.Join" {
+							if elems, okV := core.VariadicElems(j.Call.Args[0]); okV && len(elems) == 2 &&
+								core.IsFieldLoad(core.Unwrap(p.Resolve(elems[0])), "Storer", "baseDir") && core.Unwrap(p.Resolve(elems[1])) == core.Unwrap(p.Resolve(st.Args()[0])) {
+								if e := extractOf(lastStat.Value(), 1); e != nil && pathNil(p, e) {
+									good = true
+								}
+							}
+						}
+					}
+					if !good {
+						ok, pos = false, st.Pos()
 					}
 				}
-				if sameId && core.Dominates(st.Instr, set.Instr) && core.OnSuccessOf(set.Instr.Block(), st.Value()) {
-					ok = true
-				}
 			}
-		}
+		})
+		ok = ok && okEnum && nSet > 0
 		r.Check(ok, "Storer.VerifyRunId/adopt-existing-only", pos, "the store may switch to one of the source's ids only on the success edge of probing that id's own directory; switching to an id without a directory renames the current directory to it, and the source is then asked to continue another history's bytes under the new id")
 	}
 	if f := fn(w, r, "(*syncer.MemoryChannel).StartPoint"); f != nil {
